@@ -322,6 +322,13 @@ fn shape_labels(spec: &AppSpec) -> Vec<&'static str> {
     if spec.types.iter().any(|t| t.life == Life::Singleton && t.inputs.iter().any(|(j, _)| spec.types[*j].life == Life::Transient)) {
         v.push("shape:singleton-built-from-a-transient");
     }
+    for c in &spec.comps {
+        for (kind, _) in &c.gens {
+            v.push(["shape:generic-constructor(singleton)", "shape:generic-constructor(request-scoped)", "shape:generic-constructor(transient)", "shape:generic-constructor-with-a-lifetime"][*kind as usize % 4]);
+        }
+    }
+    v.sort();
+    v.dedup();
     if used(&|_, m| m == Mode::Mut) {
         v.push("shape:mutable-reference-injected");
     }
@@ -615,7 +622,7 @@ fn evaluate_round(chk: &mut Check, prop: &str, specs: &[AppSpec], out: &RoundOut
                     let nontrivial = match prop {
                         "C05" => labels.iter().any(|l| l.starts_with("shape:wrap") || l.starts_with("shape:>=11") || l.starts_with("plan:")),
                         "C03" => labels.iter().any(|l| l.starts_with("request-scoped:shared") || l.starts_with("transient:>=2")) || failing,
-                        "C04" => labels.iter().any(|l| l == "ctor-resolution:override" || l == "clone-observed"),
+                        "C04" => labels.iter().any(|l| l == "ctor-resolution:override" || l == "clone-observed" || l == "generic-ctor-resolution:concrete"),
                         _ => labels.iter().any(|l| l == "failed:shared-constructor" || l == "failure-inside-wrapped-pipeline" || l == "observers>=2"),
                     };
                     if nontrivial {
@@ -1416,7 +1423,7 @@ fn verdict_check(mut chk: Check) -> ! {
     chk.ev.rule = "pairs (rule-abiding base application, chaos variant = 1-3 planted rule violations + a structural oddity: duplicated registration, 5-35 levels of nesting, malformed prefix/domain, no routes, mixed guarded/unguarded routes) compiled into the same output crate: first the base (must be accepted), then the variant. Oracle for every compiler run: terminates within the watchdog, exit status 0 or 1, no panic/abort, exit 0 => Cargo.toml and src/lib.rs exist, exit 1 => at least one ERROR diagnostic; when the variant fails, the SDK generated for the base is byte-for-byte untouched. non-trivial = the variant was rejected (atomicity exercised) or the blueprint has >=25 registrations; distinct = distinct variant spec".into();
     chk.ev.assume("user crates always compile (variants that do not are discarded and counted); a compiler run that does not finish within the watchdog (150 s; warm runs take 1-5 s) makes the check exit 2 (inconclusive) and saves the case, it is never reported as a violation");
     let (n_pairs, lanes) = match tier {
-        Tier::Quick => (24usize, 3usize),
+        Tier::Quick => (40usize, 3usize),
         Tier::Thorough => (600, 6),
     };
     let n_pairs = chk.settings.extra.get("cases").and_then(|c| c.parse().ok()).unwrap_or(n_pairs);
@@ -1437,8 +1444,21 @@ fn verdict_check(mut chk: Check) -> ! {
     let only_replay = chk.settings.replay.is_some();
     let bases = if only_replay { vec![] } else { draw_abiding(&chk, "chaos", n_pairs) };
     let mut pairs: Vec<(AppSpec, AppSpec)> = bases.iter().enumerate().map(|(i, b)| (b.clone(), chaos_of(b, chk.settings.sub_seed("chaos") ^ (i as u64 * 7919)))).collect();
+    // route tables (prefixes with parameters, catch-alls, fallbacks at every level, domain guards) as variants of a trivial base:
+    // every verdict of the compiler must be coherent on them too
+    let mut routing_specs: Vec<AppSpec> = vec![];
+    if !only_replay {
+        let n_tables = if tier == Tier::Quick { 16 } else { 200 };
+        let mut runner = chk.settings.runner("chaos-routing", n_tables as u32);
+        let plain = genr::routing_genome(false);
+        let guarded = genr::routing_genome(true);
+        for i in 0..n_tables {
+            let g = if i % 2 == 0 { plain.new_tree(&mut runner).unwrap().current() } else { guarded.new_tree(&mut runner).unwrap().current() };
+            routing_specs.push(genr::build_routing(&g, i % 8));
+        }
+    }
     // recorded cases: the recorded spec is the variant, a trivial application is the base
-    for s in &replay_specs {
+    for s in replay_specs.iter().chain(routing_specs.iter()) {
         let mut trivial = AppSpec::default();
         trivial.comps.push(CompSpec { kind: CompKind::Handler, inputs: vec![], fallible: None, is_async: false, route: Some(RouteSpec { methods: vec!["GET".into()], path: "/".into(), path_param_fields: vec![], bulk: false }), fw: vec![], gens: vec![] });
         trivial.bp.push(Reg::Comp { idx: 0 });
